@@ -599,6 +599,7 @@ func ruleC09(prog *Program, rep *Report) {
 	results := exploreFrontEnds(prog, jsonFrontEnds, []bool{false, true}, false)
 	applyParseResults(rep, results, union(kindsPosition, kindsPanic, map[string]bool{"accepts-dead": true, "rejects-live": true}), "A-errpos", 18) // an arm that slices past len(buf) compares stale bytes: the error, if any, is reported at another byte
 	ruleC09Extra(prog, rep)
+	ruleEntryParity(prog, rep, "oj.Parser", "oj.Validator", "oj.Tokenizer", "gen.Parser") // a line counter or newline offset that one entry does not reset puts the position of the next document's error on the lines of the previous one
 	if rep.Tier == "thorough" {
 		mutationSweep(prog, rep, union(kindsPosition, map[string]bool{"accepts-dead": true, "rejects-live": true}), sweepSize())
 	}
